@@ -393,6 +393,14 @@ func (s *Store[H]) setTail(ctx context.Context, write datastore.Write, to uint64
 		}
 		s.contiguousHead.Store(&newTail)
 		s.advanceHead(ctx)
+		head, _ = s.Head(ctx)
+	}
+	// the head may have advanced since the last flush: keep its persisted pointer in step,
+	// as the header it pointed to may be among the deleted ones
+	if !head.IsZero() {
+		if err := writeHeaderHashTo(ctx, write, head, headKey); err != nil {
+			return fmt.Errorf("writing headKey in batch: %w", err)
+		}
 	}
 	return nil
 }
